@@ -75,15 +75,13 @@ def resultS : M Result → String
       | .reply rp => replyS rp
     s!"{head} hooks={r.hookCalls} db={r.stored}"
 
-/-- Dispatch tables to run with: the tree as it stands unless the line carries `tables=…`
-    (never sent by the harness; used by hand to validate a proposed repair of /repo against the
-    repaired tables before the model is changed: `sed 's/$/ tables=fix4/'` on the input lines). -/
+/-- Dispatch tables to run with: the tree as it stands unless the line carries `tables=before`
+    (never sent by the harness; used by hand to run the historic tables, e.g. against a worktree
+    checked out before the fix commits: `sed 's/$/ tables=before/'` on the input lines). -/
 def tables (kv : List (String × String)) : Option Facts :=
   match lookup kv "tables" with
   | none => some asCoded
-  | some "fix4" => some { asCoded with checked := [tRenewalReq, tUpdateReq, tPKCSReq] }
-  | some "fix5" => some (withCertRepRefused asCoded)
-  | some "fix45" => some (withCertRepRefused { asCoded with checked := [tRenewalReq, tUpdateReq, tPKCSReq] })
+  | some "before" => some asCodedBefore
   | some _ => none
 
 def eval (line : String) : Option String := do
